@@ -57,15 +57,22 @@ def run_property(prop, tier="quick", repo="/repo", evidence_dir=None, quiet=Fals
         rules_out = []
         findings = []
         notes = []
+        rule_errors = []
         for rule in reg[prop]["rules"]:
             if rule.family == "thorough-only" and tier != "thorough":
                 continue
-            res: RuleResult = rule.fn(ctx, rule)
-            n = len(res.instances)
-            if n < rule.floor:
-                raise AnalysisError(
-                    "rule %s found %d instance(s), below its floor %d: an anchor vanished" % (rule.id, n, rule.floor)
-                )
+            # a rule that cannot find its anchors makes the run analysis-broken (exit 2) - but it must not hide what the
+            # other rules of the property do find: they still run, and an unlisted finding of theirs is reported (exit 1)
+            try:
+                res: RuleResult = rule.fn(ctx, rule)
+                n = len(res.instances)
+                if n < rule.floor:
+                    raise AnalysisError(
+                        "rule %s found %d instance(s), below its floor %d: an anchor vanished" % (rule.id, n, rule.floor)
+                    )
+            except AnalysisError as e:
+                rule_errors.append("%s: %s" % (rule.id, e))
+                continue
             seen_keys = {f.key for f in findings}
             uniq = []
             for fnd in res.findings:
@@ -117,6 +124,10 @@ def run_property(prop, tier="quick", repo="/repo", evidence_dir=None, quiet=Fals
             replay_paths.append(rp)
             emit("FINDING %s at %s: %s%s" % (f.key, f.loc, f.message, (" | witness: " + f.witness) if f.witness else ""))
             emit("VIOLATION property=%s replay=%s" % (prop, rp))
+        for e in rule_errors:
+            emit("ANALYSIS-ERROR property=%s %s" % (prop, e))
+        if rule_errors and not unlisted:
+            return 2, findings, rules_out
         extra = {}
         if tier == "thorough" and reg[prop].get("thorough"):
             extra = reg[prop]["thorough"](ctx, emit) or {}
